@@ -22,7 +22,14 @@ def get_facts(cfg='default'):
     """Facts for /repo's current working tree in configuration cfg; extracted by the driver
     unless a fact file for exactly this source content (sha256) exists."""
     os.makedirs(CACHE, exist_ok=True)
-    h = core.source_hash(REPO)
+    def cur_hash():
+        h = core.source_hash(REPO)
+        drv = os.path.join(VERIF, 'driver', 'target', 'release', 'pdb-facts')
+        if os.path.exists(drv):
+            import hashlib
+            h = hashlib.sha256((h + hashlib.sha256(open(drv, 'rb').read()).hexdigest()).encode()).hexdigest()      # facts depend on the driver too
+        return h
+    h = cur_hash()
     lock = open(os.path.join(CACHE, 'extract-%s.lock' % cfg), 'w')
     fcntl.flock(lock, fcntl.LOCK_EX)
     try:
@@ -53,7 +60,7 @@ def get_facts(cfg='default'):
             if os.path.getmtime(files[0]) < t0 - 1:
                 raise SystemExit('FATAL: stale fact file for config %s' % cfg)
             # the tree may have been edited while extracting: stamp with the hash read before
-            if core.source_hash(REPO) == h:
+            if cur_hash() == h:
                 open(stamp, 'w').write(h)
         f = core.Facts(files[0])
         f.cfg = cfg
